@@ -27,7 +27,10 @@ Step ==
   /\ l <= Len(Traces[tid]) /\ bad = ""
   /\ l' = l + 1 /\ UNCHANGED tid
   /\ LET e == Traces[tid][l] a == F(e, "a", 0) op == F(e, "op", "") IN
-     CASE e.e = "b" /\ op = "enter" ->
+     \* an internal error of the framework surfaces from entering / leaving the block
+     CASE e.e \in {"x", "u"} /\ (op = "enter" \/ F(e, "blk", "") = "lock") /\ F(e, "exc", <<>>) # <<>> /\ e.exc[1] = "other" ->
+            Fail("C09.lock_raised_internal")
+       [] e.e = "b" /\ op = "enter" ->
             /\ asked' = [asked EXCEPT ![e.l] = Append(@, a)] /\ UNCHANGED <<holder, depth, bad>>
        [] e.e = "r" /\ op = "enter" ->
             LET k == e.l IN
